@@ -39,11 +39,19 @@ func execNetworkSimplex(g *graph.DGraph, params graph.Params) {
 		},
 	)
 
+	// the layer of a node in the auxiliary graph is the position of its center, because the minimum distance
+	// between neighbors is the distance between their center points
+	leftmost := math.Inf(+1)
 	for _, l := range g.Layers {
 		for _, n := range l.Nodes {
 			l.H = max(l.H, n.H)
-			n.X = float64(p.nodes[n.ID].Layer)
+			n.X = float64(p.nodes[n.ID].Layer) - n.W/2
+			leftmost = min(leftmost, n.X)
 		}
+	}
+	// keep the drawing in the positive quadrant
+	for _, n := range g.Nodes {
+		n.X -= leftmost
 	}
 }
 
